@@ -65,3 +65,27 @@ Module Witness.
   Example in_fragment : frag e.
   Proof. repeat constructor. Qed.
 End Witness.
+
+(* ---- source parentheses are honoured exactly; precedence and associativity of the parser ----
+   `gp o e` writes e in the concrete syntax of WXML with the parentheses precedence requires plus an extra pair
+   around every operand the oracle `o` selects (none, all, any mixture).  Whatever the oracle, the
+   character-level parser model (tied to parse/expr.rs by correspondence) reads the text as e.  In particular the
+   fully parenthesised spelling - whose grouping no precedence table can change - and the minimal spelling are
+   read as the same tree: the parser implements exactly the level tables of `sx_level` / `sx_right`
+   (left-associative binary levels, right-nested conditional), which the value differential compares with
+   JavaScript on every operator pair. *)
+From GE Require Import Model.StrExpr Model.ExprParse Proofs.ExprRoundTrip Proofs.ParenPrinter.
+Theorem C03_source_parentheses_honoured : forall (o : expr -> bool) e, wf e -> forall rest,
+  parse_cond (gp o e ++ 125%N :: 125%N :: rest) = POk e (125%N :: 125%N :: rest).
+Proof. exact extra_parentheses_honoured. Qed.
+Print Assumptions C03_source_parentheses_honoured.
+
+Theorem C03_minimal_spelling_is_the_printers : forall names e, wf e -> gp (fun _ => false) e = sx_core names e.
+Proof. exact gp_never_is_sx_core. Qed.
+Print Assumptions C03_minimal_spelling_is_the_printers.
+
+Example C03_parentheses_example :
+  let e := EBin BSub (EBin BSub (EField (lit "a")) (EField (lit "b"))) (EBin BMul (EField (lit "c")) (EUn UNeg (EField (lit "d")))) in
+  gp (fun _ => false) e = lit "a-b-c* -d" /\ gp (fun _ => true) e = lit "((a)-(b))-((c)*( -(d)))" /\
+  parse_cond (lit "((a)-(b))-((c)*( -(d)))}}") = POk e (lit "}}") /\ parse_cond (lit "a-b-c* -d}}") = POk e (lit "}}").
+Proof. cbn zeta. repeat split; vm_compute; reflexivity. Qed.
